@@ -468,9 +468,9 @@ func (c *SpecCtx) binary(e *EBinary) SVal {
 	case "*":
 		return SVal{T: bvop("bvmul", x.T, y.T), Ty: x.Ty}
 	case "/":
-		return SVal{T: bvop(pick("bvsdiv", "bvudiv"), x.T, y.T), Ty: x.Ty}
+		return SVal{T: c.g.divConst(pick("bvsdiv", "bvudiv"), x.T, y.T), Ty: x.Ty}
 	case "%":
-		return SVal{T: bvop(pick("bvsrem", "bvurem"), x.T, y.T), Ty: x.Ty}
+		return SVal{T: c.g.divConst(pick("bvsrem", "bvurem"), x.T, y.T), Ty: x.Ty}
 	case "&":
 		return SVal{T: bvop("bvand", x.T, y.T), Ty: x.Ty}
 	case "|":
